@@ -606,7 +606,7 @@ func checkC06(c *Ctx, r *Report) {
 			nStoreV++
 			hdr := map[string]string{"ETag": "ETag", "LastModified": "Last-Modified"}[fname(fv)]
 			fromHeader, fromClock, other := false, false, ""
-			derivesFromDeep(st.Val, nil, func(v ssa.Value, _ dctx) bool {
+			derivesFromDeep(st.Val, nil, func(v ssa.Value, dc dctx) bool {
 				call, ok := v.(*ssa.Call)
 				if !ok {
 					return false
@@ -615,7 +615,9 @@ func checkC06(c *Ctx, r *Report) {
 				case "(net/http.Header).Get", "(net/http.Header).Values":
 					a := callArgs(call)
 					if name, isC := constString(a[1]); isC && name == hdr {
-						if root, pth := fieldPath(a[0]); len(pth) > 0 && pth[len(pth)-1] == "Header" {
+						// the header map may have been handed to a helper (parseLastModified(resp.Header)):
+						// its path is read through the entering call sites
+						if root, pth := ctxFieldPath(a[0], dc); len(pth) > 0 && pth[len(pth)-1] == "Header" {
 							if _, isResp := root.Type().Underlying().(*types.Pointer); isResp && strings.HasSuffix(root.Type().String(), "net/http.Response") {
 								fromHeader = true
 							}
